@@ -169,6 +169,18 @@ def pcmScan : Nat → List (Nat × Cmd) → Bool
 
 def pcmOk (cs : List (Nat × Cmd)) : Prop := pcmScan 0 cs = true
 
+/-- contents of data bank 0 once every block is loaded -/
+def bankOf : List (Nat × Cmd) → Bytes
+  | [] => []
+  | (_, .dataBlock t d) :: r => if t = 0 then d ++ bankOf r else bankOf r
+  | _ :: r => bankOf r
+
+/-- the byte windows the stream-start commands address -/
+def streamWindows (cs : List (Nat × Cmd)) : List Bytes :=
+  cs.filterMap fun p => match p.2 with
+    | .dacStart _ st _ len => some (((bankOf cs).drop st).take len)
+    | _ => none
+
 /-! ### GD3 -/
 
 /-- split a GD3 body into NUL-terminated UTF-16LE strings (code units); `none` when a
